@@ -5,7 +5,7 @@ cd /verif
 set -e
 mkdir -p bin evidence .scratch
 ./gen_overlay.sh
-go build -overlay $GEN/overlay.json -o bin/pcheck ./cmd/pcheck
-go build -overlay $GEN/overlay_ks.json -o bin/kscheck ./cmd/kscheck
-go build -race -overlay $GEN/overlay_race.json -o bin/ksrace ./cmd/ksrace
+go build -overlay $GEN/overlay.json -o $BIN/pcheck ./cmd/pcheck
+go build -overlay $GEN/overlay_ks.json -o $BIN/kscheck ./cmd/kscheck
+go build -race -overlay $GEN/overlay_race.json -o $BIN/ksrace ./cmd/ksrace
 echo "setup ok"
